@@ -38,6 +38,18 @@ def varint(n):
     return b'\xff' + n.to_bytes(8, 'little')
 
 
+def canonical_candidates(b):
+    """the value a canonical CompactSize at the head of b would carry (at most one candidate)"""
+    if not b:
+        return []
+    w = {0xfd: 2, 0xfe: 4, 0xff: 8}.get(b[0])
+    if w is None:
+        return [b[0]]
+    if len(b) < 1 + w:
+        return []
+    return [int.from_bytes(b[1:1 + w], 'little')]
+
+
 def has_witness(t):
     return bool(t.get('wit')) and any(len(st) > 0 for st in t['wit'])
 
@@ -323,7 +335,7 @@ def hist_observe(C, kind, text, variant, o, name):
             return bytes(o.GetTxid()).hex()
         if name == 'pyh':
             twin = hist_build(C, kind, text, 'i' if kind == 'tx' else 'raw')      # a fresh object every time
-            return str(int(hash(o) == hash(twin.serialize())))
+            return str(int(hash(o) == hash(twin) and hash(o) == hash(o)))      # equal objects, equal hashes
         if name == 'eq':
             twin = hist_build(C, kind, text, 'i' if kind == 'tx' else 'raw')
             return str(int((o == twin) and (twin == o) and not (o != twin)))
@@ -405,7 +417,8 @@ class C01(Prop):
             'mutable witness; per object: serialise (immutable, mutable, copies) vs Model and vs Spec, deserialise Spec '
             'bytes with both classes and both allow_padding values, every strict prefix when ≤ 600 bytes else every field '
             'edge ±1 (sampled above 160 positions), extensions by 1, 2, 33 bytes; headers; blocks of 0..n transactions; '
-            'MAX_SIZE guard probes; mutated streams; objects with history: every ordered pair of the observers serialize() / '
+            'MAX_SIZE probes (length field = MAX_SIZE is a prefix of a valid encoding; above it: out of domain, observation '
+            'only); mutated streams and malformed VarInt arguments: out of domain, observation only; objects with history: every ordered pair of the observers serialize() / '
             'serialize(include_witness=False|True) / stream_serialize (both forms) / GetHash / GetTxid / hash() / == / '
             'calc_weight|GetWeight applied to ONE object, for 4 witness patterns x 4 constructions of a transaction and 3 blocks '
             'x 2 constructions (exhaustive matrix, stateless model answers). One cuts case evaluates up to 600 prefixes. Non-trivial = not the '
@@ -467,7 +480,13 @@ class C01(Prop):
                 if which == 'wit' and wp not in ('one', 'all'):
                     continue
                 out += [(wp, 'len', which, L) for L in g.lens]
-                out += [(wp, 'count', which, c) for c in g.counts]
+                counts = list(g.counts)
+                if which == 'wit':
+                    # witness items may be empty, so large counts are cheap: the CompactSize boundary of the COUNT
+                    # (0xffff / 0x10000) and every larger literal mined from the anchored code (e.g. a limit somebody
+                    # adds to the parser) are driven through this slot
+                    counts = sorted(set(counts) | {0xffff, 0x10000} | {v for v in self.pool if 400 < v <= 70000})
+                out += [(wp, 'count', which, c) for c in counts]
         return out
 
     def systematic_specs(self, tier):
@@ -570,9 +589,16 @@ class C01(Prop):
         return list(dict.fromkeys(out))          # no duplicates (e.g. the empty tail of every fill pattern)
 
     def varint_cases(self, tier, shard, nshards):
+        # VarIntSerializer is an internal helper of the statement's encodings (auxiliary tie): in range it must be the
+        # CompactSize codec; negative / >= 2^64 arguments and non-canonical or truncated streams are out of domain
         for j, (op, arg) in enumerate(self.varint_domain(tier)):
             if j % nshards == shard:
-                yield mk(op, arg, tag='varint')
+                if op == 'c01.varint.de':
+                    b = bytes.fromhex(arg)
+                    ood = not any(b.startswith(varint(v)) for v in canonical_candidates(b))
+                else:
+                    ood = not (0 <= int(arg) < 2 ** 64)
+                yield mk(op, arg, tag='varint', ood=ood)
 
     def maxsize_domain(self):
         ns = sorted({MAX_SIZE - 1, MAX_SIZE, MAX_SIZE + 1, 0xffffffff, 0x100000000, 2 ** 64 - 1} |
@@ -598,8 +624,9 @@ class C01(Prop):
                 buf = head + b'\x00\x01' + b'\x01' + inp + b'\x00' + b'\xff' * 4 + b'\x00' + b'\x01' \
                     + varint(n) + data
             tag = ('prefix-of-valid' if n <= MAX_SIZE else 'size-guard') + ':%s:n=%d:have=%d' % (place, n, have)
-            yield mk('c01.de.tx', buf.hex(), 0, tag=tag)
-            yield mk('c01.de.blk', (b'\x01' * 80 + b'\x01' + buf).hex(), 0, tag='blk:' + tag)
+            ood = n > MAX_SIZE      # not a prefix of any valid encoding: the statement says nothing about it
+            yield mk('c01.de.tx', buf.hex(), 0, tag=tag, ood=ood)
+            yield mk('c01.de.blk', (b'\x01' * 80 + b'\x01' + buf).hex(), 0, tag='blk:' + tag, ood=ood)
 
     def spec_hex(self, chunk):
         lines = []
@@ -653,7 +680,7 @@ class C01(Prop):
                 del b[p:p + rng.choice((1, 1, 2, 4))]
             if len(b) > 70000:
                 continue
-            yield mk('c01.de.' + kind, bytes(b).hex(), rng.choice((0, 1)), tag='mutant')
+            yield mk('c01.de.' + kind, bytes(b).hex(), rng.choice((0, 1)), tag='mutant', ood=True)
 
     def tx_cases(self, rng, t, enc, big):
         s = txfmt.show_tx(t)
